@@ -21,7 +21,14 @@ RULE = ('(a) randomly generated TlvModel classes (random field kinds incl. neste
         'shipped with the library (NFD management, NDNLPv2, LVS binary, SVS, security_v2, MetaInfo/SignatureInfo/...), schema '
         'extracted live from _encoded_fields; each case is encoded by the real code and by the model, decoded back, and decoded '
         'again after one structural mutation (unknown critical / non-critical element inserted at a gap, duplicated or swapped '
-        'elements, truncation, length edit). non-trivial = the value has at least two present fields; distinct = distinct '
+        'elements, truncation, length edit; half of the insertions go INSIDE the Value of a sub-model element). Hardening '
+        'streams: (c) shapes - Type numbers 252/253/254, 65535/65536, 2^32-1 next to each other, repeated sub-models holding '
+        'repeated fields, a map inside a repeated sub-model, fixed-length integers of every width; text whose UTF-8 length '
+        'is next to 253 (1-4-byte characters); (d) classes with two bases / two IncludeBase and overrides; (e) fields with '
+        'declared defaults left unassigned / assigned / explicitly None (oracle only). Every case also checks: decoded == '
+        'encoded (__eq__, both directions), a copy differing in one field is unequal, asdict() of the decoded model equals '
+        'asdict() of the encoded one and the values assigned, encode(buffer, offset) into a 0xAA-filled caller buffer writes '
+        'exactly its range. non-trivial = the value has at least two present fields; distinct = distinct '
         '(schema, value, mutation)')
 LEVEL_TEXT = ('Lean 4 theorems about a generic interpreter of TLV model schemas (every nesting of integer, boolean, bytes/text, '
               'name, sub-model, repeated and map fields): announced length = encoded size, output is a well-formed TLV sequence '
@@ -110,24 +117,94 @@ def _mutation(rng, fs, vals):
         t += 2
     m['odd'] = t
     m['payload'] = bytes(rng.getrandbits(8) for _ in range(rng.choice([0, 1, 5]))).hex()
+    # "wherever they are inserted": also inside the Value of a sub-model element (when the wire has one)
+    if kind in ('ins_noncrit', 'ins_crit') and rng.random() < 0.5:
+        m['nest'] = True
+        m['nr'] = rng.randint(0, 10 ** 6)
     return m
 
 
 def cases(rng, tier):
-    n_gen = 350 if tier == 'quick' else 12000
-    n_ship = 250 if tier == 'quick' else 8000
+    n_gen = 1200 if tier == 'quick' else 12000
+    n_ship = 800 if tier == 'quick' else 8000
     for _ in range(n_gen):
         fs = T.random_schema(rng)
         vals = [T.random_value(rng, s, big=(tier == 'thorough' and rng.random() < 0.02)) for s in fs]
         yield {'kind': 'gen', 'schema': [T.strip_classes(s) for s in fs], 'values': [T.jval(v) for v in vals],
                'mut': _mutation(rng, fs, vals)}
-    for _ in range(60 if tier == 'quick' else 3000):
+    for _ in range(200 if tier == 'quick' else 3000):
         yield _inherit_case(rng)
+    for _ in range(800 if tier == 'quick' else 6000):
+        fs = _shape_schema(rng)
+        vals = [T.random_value(rng, s, present=0.9) for s in fs]
+        yield {'kind': 'gen', 'schema': [T.strip_classes(s) for s in fs], 'values': [T.jval(v) for v in vals],
+               'mut': _mutation(rng, fs, vals), 'shape': 1}
+    for _ in range(300 if tier == 'quick' else 3000):
+        yield _default_case(rng)
     for _ in range(n_ship):
         path = rng.choice(SHIPPED)
         fs = T.class_schema(_cls(path))
         vals = [T.random_value(rng, s) for s in fs]
         yield {'kind': 'shipped', 'cls': path, 'values': [T.jval(v) for v in vals], 'mut': _mutation(rng, fs, vals)}
+
+
+def _shape_schema(rng):
+    """model shapes the random schema generator reaches rarely: Type numbers on both sides of the 253 / 65536 form
+    changes next to each other; a repeated sub-model holding repeated fields; a map inside a repeated sub-model;
+    fixed-length integers of every width"""
+    k = rng.choice(['adjacent', 'adjacent', 'rep_in_rep', 'map_in_rep', 'fixed', 'rep_model_in_model'])
+
+    def leaf(t):
+        r = rng.choice(['U', 'U', 'Y', 'T', 'B'])
+        return ('U', t, rng.choice([None, None, 1, 2, 4, 8])) if r == 'U' else ('Y', t, False) if r == 'Y' \
+            else ('Y', t, True) if r == 'T' else ('B', t)
+    if k == 'adjacent':
+        ts = rng.choice([[252, 253, 254], [251, 252, 253, 255], [65534, 65535, 65536, 65537], [252, 253, 65535, 65536],
+                         [252, 254, 65536, 2 ** 32 - 2, 2 ** 32 - 1]])
+        fs = [leaf(t) for t in ts]
+        if rng.random() < 0.4:
+            i = rng.randrange(len(fs))
+            fs[i] = ('R', fs[i]) if fs[i][0] != 'B' else fs[i]
+        return fs
+    if k == 'fixed':
+        return [('U', 10 + i, w) for i, w in enumerate(rng.sample([1, 2, 4, 8, None, 1, 8], 4))]
+    inner_t = iter(rng.sample(range(1, 250), 8))
+    if k == 'rep_in_rep':
+        sub = [('R', ('U', next(inner_t), rng.choice([None, 2]))), ('R', ('Y', next(inner_t), rng.random() < 0.5)),
+               ('U', next(inner_t), None)]
+        if rng.random() < 0.5:
+            sub.insert(rng.randint(0, 3), ('R', ('M', next(inner_t), False, [('R', ('U', 1, None)), ('B', 2)], None)))
+        return [('R', ('M', rng.choice([100, 253, 65536]), False, sub, None)), ('U', 300, None)]
+    if k == 'map_in_rep':
+        kk = ('U', next(inner_t), None) if rng.random() < 0.5 else ('Y', next(inner_t), True)
+        vv = rng.choice([('U', next(inner_t), None), ('Y', next(inner_t), False),
+                         ('M', next(inner_t), False, [('U', 1, None), ('R', ('Y', 2, False))], None)])
+        sub = [('U', next(inner_t), None), ('P', kk, vv)]
+        if rng.random() < 0.5:
+            sub.reverse()
+        return [('Y', 90, True), ('R', ('M', rng.choice([101, 254, 65537]), rng.random() < 0.2, sub, None))]
+    sub2 = [('R', ('M', next(inner_t), False, [('U', 1, None), ('Y', 2, True)], None)), ('B', next(inner_t))]
+    return [('M', rng.choice([129, 253]), rng.random() < 0.3, sub2, None), ('R', ('U', 131, 1))]
+
+
+def _default_case(rng):
+    """a flat model whose fields declare default values; some fields are left unassigned (the default is to be encoded
+    and read back), the others are assigned"""
+    used = set()
+    fields = []
+    for _ in range(rng.randint(1, 4)):
+        s = _leaf(rng, used)
+        if s[0] == 'B':
+            s = ['U', s[1], None]
+        sd = T.unstrip(s)
+        d = T.random_value(rng, sd, present=0.75)
+        v = T.random_value(rng, sd, present=1.0) if rng.random() < 0.5 else rng.choice(['unset', 'unset', 'none'])
+        fields.append({'schema': s, 'default': T.jval(d), 'value': v if isinstance(v, str) else T.jval(v)})
+    if rng.random() < 0.3:
+        fields.insert(rng.randint(0, len(fields)), {'schema': ['N', 7], 'default': ['n', [T.random_comp(rng).hex()]],
+                                                     'value': 'unset' if rng.random() < 0.6 else T.jval(T.random_value(rng, ('N', 7), 1.0))})
+    return {'kind': 'dflt', 'fields': fields, 'values': [],
+            'mut': {'kind': 'none', 'gap': 0, 'r': 0, 'even': 2, 'odd': 3, 'payload': ''}}
 
 
 def _leaf(rng, used):
@@ -149,13 +226,21 @@ def _inherit_case(rng):
     derived.insert(rng.randint(0, len(derived)), ['inc'])
     for i in rng.sample(range(len(base)), rng.randint(0, min(2, len(base)))):
         derived.insert(rng.randint(0, len(derived)), ['ovr', i, _leaf(rng, used)])
-    names, vals = _inherit_expected(base, derived)
-    values = {n: T.jval(T.random_value(rng, T.unstrip(s), present=0.85)) for n, s in names}
-    return {'kind': 'inh', 'base': base, 'derived': derived, 'values': values,
+    case = {'kind': 'inh', 'base': base, 'derived': derived,
             'mut': {'kind': 'none', 'gap': 0, 'r': 0, 'even': 2, 'odd': 3, 'payload': ''}}
+    if rng.random() < 0.4:
+        # a second base class, included by its own IncludeBase (as CertificateV2SignatureInfo does)
+        base2 = [_leaf(rng, used) for _ in range(rng.randint(1, 3))]
+        derived.insert(rng.randint(0, len(derived)), ['inc2'])
+        if rng.random() < 0.5:
+            derived.insert(rng.randint(0, len(derived)), ['ovr2', rng.randrange(len(base2)), _leaf(rng, used)])
+        case['base2'] = base2
+    names, vals = _inherit_expected(base, derived, case.get('base2'))
+    case['values'] = {n: T.jval(T.random_value(rng, T.unstrip(s), present=0.85)) for n, s in names}
+    return case
 
 
-def _inherit_expected(base, derived):
+def _inherit_expected(base, derived, base2=None):
     """the field order the documentation of TlvModel / IncludeBase promises: attributes in definition order; a
     name seen before (own, or brought in by IncludeBase) is replaced where it stands, a new name is appended"""
     order, pos = [], {}
@@ -174,6 +259,11 @@ def _inherit_expected(base, derived):
         elif d[0] == 'inc':
             for i, s in enumerate(base):
                 put(f'b{i}', s)
+        elif d[0] == 'inc2':
+            for i, s in enumerate(base2):
+                put(f'c{i}', s)
+        elif d[0] == 'ovr2':
+            put(f'c{d[1]}', d[2])
         else:
             put(f'b{d[1]}', d[2])
     return order, None
@@ -185,6 +275,10 @@ def _inherit_classes(case):
     for i, s in enumerate(case['base']):
         battrs[f'b{i}'] = T._build_field(T.unstrip(s))[0]
     Base = type('InhBase', (tm.TlvModel,), battrs)
+    bases = (Base,)
+    if case.get('base2'):
+        Base2 = type('InhBase2', (tm.TlvModel,), {f'c{i}': T._build_field(T.unstrip(s))[0] for i, s in enumerate(case['base2'])})
+        bases = (Base, Base2)
     dattrs, k = {}, 0
     for d in case['derived']:
         if d[0] == 'own':
@@ -192,18 +286,28 @@ def _inherit_classes(case):
             k += 1
         elif d[0] == 'inc':
             dattrs['_inc'] = tm.IncludeBase(Base)
+        elif d[0] == 'inc2':
+            dattrs['_inc2'] = tm.IncludeBase(Base2)
+        elif d[0] == 'ovr2':
+            dattrs[f'c{d[1]}'] = T._build_field(T.unstrip(d[2]))[0]
         else:
             dattrs[f'b{d[1]}'] = T._build_field(T.unstrip(d[2]))[0]
-    return type('InhDerived', (Base,), dattrs)
+    return type('InhDerived', bases, dattrs)
 
 
 def shrink(case):
+    if case['kind'] == 'dflt':
+        f = case['fields']
+        for i in range(len(f)):
+            if len(f) > 1:
+                yield dict(case, fields=f[:i] + f[i + 1:])
+        return
     if case['kind'] == 'inh':
         d = case['derived']
         for i in range(len(d)):
-            if d[i][0] != 'inc':
+            if d[i][0] not in ('inc', 'inc2'):
                 d2 = d[:i] + d[i + 1:]
-                names, _ = _inherit_expected(case['base'], d2)
+                names, _ = _inherit_expected(case['base'], d2, case.get('base2'))
                 yield dict(case, derived=d2, values={n: case['values'].get(n) for n, _ in names})
         return
     vals = case['values']
@@ -228,7 +332,7 @@ def shrink(case):
 def _setup(case):
     if case['kind'] == 'inh':
         cls = _inherit_classes(case)
-        names, _ = _inherit_expected(case['base'], case['derived'])
+        names, _ = _inherit_expected(case['base'], case['derived'], case.get('base2'))
         fs = [T.unstrip(sch) for _, sch in names]          # the EXPECTED field list (documented merge rule)
         vals = [T.unjval(case['values'].get(n)) for n, _ in names]
         return cls, fs, vals
@@ -240,6 +344,19 @@ def _setup(case):
         fs = T.class_schema(cls)
     vals = [T.unjval(v) for v in case['values']]
     return cls, fs, vals
+
+
+def _value_of(el):
+    """Value bytes of one complete element"""
+    def num(o):
+        b = el[o]
+        if b <= 0xFC:
+            return b, 1
+        w = {0xFD: 2, 0xFE: 4, 0xFF: 8}[b]
+        return int.from_bytes(el[o + 1:o + 1 + w], 'big'), 1 + w
+    _, a = num(0)
+    ln, b = num(a)
+    return el[a + b:a + b + ln]
 
 
 def _elements(wire):
@@ -267,11 +384,40 @@ def _elements(wire):
     return out
 
 
-def _mutate(wire, m):
+def _nest_target(wire, m, fs):
+    """(index of the top-level element to edit, its sub-model schema) for a nested insertion, or None"""
+    if not m.get('nest') or fs is None:
+        return None
+    sub = {}
+    for s in fs:
+        e = s[1] if s[0] == 'R' else s
+        if e[0] == 'M' and s[0] in ('M', 'R'):
+            sub.setdefault(e[1], e)
+    els = _elements(wire)
+    cand = [i for i, (t, _) in enumerate(els) if t in sub]
+    if not cand:
+        return None
+    i = cand[m['nr'] % len(cand)]
+    return i, sub[els[i][0]]
+
+
+def _mutate(wire, m, fs=None):
     k = m['kind']
     if k == 'none':
         return wire
     els = _elements(wire)
+    nt = _nest_target(wire, m, fs) if k in ('ins_noncrit', 'ins_crit') else None
+    if nt is not None:
+        i, e = nt
+        t = m['even'] if k == 'ins_noncrit' else m['odd']
+        while t in _top_types(e[3]):
+            t += 2
+        inner = _elements(_value_of(els[i][1]))
+        g = m['gap'] % (len(inner) + 1)
+        pl = bytes.fromhex(m['payload'])
+        body = b''.join(x for _, x in inner[:g]) + T.tl(t) + T.tl(len(pl)) + pl + b''.join(x for _, x in inner[g:])
+        new = T.tl(e[1]) + T.tl(len(body)) + body
+        return b''.join(x for _, x in els[:i]) + new + b''.join(x for _, x in els[i + 1:])
     g = m['gap'] % (len(els) + 1)
     pre = b''.join(e for _, e in els[:g])
     post = b''.join(e for _, e in els[g:])
@@ -301,12 +447,148 @@ def _mutate(wire, m):
     return wire
 
 
+def _run_default(case):
+    """fields with declared defaults: what is encoded for an unassigned field, and what reading a field gives back"""
+    from ndn.encoding import tlv_model as tm
+    attrs, fs, eff = {}, [], []
+    for i, f in enumerate(case['fields']):
+        sch = T.unstrip(f['schema'])
+        d = T.unjval(f['default'])
+        dpy = None if d is None else T.to_py(sch, d)
+        if sch[0] == 'U':
+            attrs[f'f{i}'] = tm.UintField(sch[1], default=dpy, fixed_len=sch[2])
+        elif sch[0] == 'Y':
+            attrs[f'f{i}'] = tm.BytesField(sch[1], default=dpy, is_string=sch[2])
+        else:
+            attrs[f'f{i}'] = tm.NameField(default=dpy)
+        fs.append(sch)
+        # unassigned -> the declared default is encoded; explicitly None -> omitted; otherwise the value
+        eff.append(d if f['value'] == 'unset' else None if f['value'] == 'none' else T.unjval(f['value']))
+    cls = type('Dflt', (tm.TlvModel,), attrs)
+    out = {'dflt': True}
+    try:
+        inst = cls()
+        for i, f in enumerate(case['fields']):
+            if f['value'] == 'none':
+                setattr(inst, f'f{i}', None)
+            elif f['value'] != 'unset':
+                setattr(inst, f'f{i}', T.to_py(fs[i], T.unjval(f['value'])))
+        announced = inst.encoded_length()
+        wire = bytes(inst.encode())
+        out['enc'] = ['ok', wire.hex(), announced]
+    except Exception as e:     # noqa
+        out['enc'] = ['err', _exc(e)]
+        return out
+    out['ref'] = b''.join(T.ref_encode(sch, v) for sch, v in zip(fs, eff)).hex()
+    try:
+        back = cls.parse(wire)
+        out['read_back'] = T.values_text([T.from_py(sch, getattr(back, f'f{i}')) for i, sch in enumerate(fs)])
+        # (a field explicitly set to None reads back as its default: documented, so no equality is expected then)
+        out['eq'] = (bool(back == inst) and bool(inst == back)) or \
+            any(f['value'] == 'none' and f['default'] is not None for f in case['fields'])
+        empty = cls.parse(b'')
+        out['read_empty'] = T.values_text([T.from_py(sch, getattr(empty, f'f{i}')) for i, sch in enumerate(fs)])
+    except Exception as e:     # noqa
+        out['read_back'] = 'raised ' + _exc(e)
+    out['want_back'] = T.values_text([T.unjval(f['default']) if v is None else v for f, v in zip(case['fields'], eff)])
+    out['want_empty'] = T.values_text([T.unjval(f['default']) for f in case['fields']])
+    return out
+
+
+def _want_dict(cls, fs, vals):
+    """field name -> plain Python value, as the documentation of asdict() describes it (generated classes only)"""
+    out = {}
+    for f, s, v in zip(cls._encoded_fields, fs, vals):
+        if s[0] == 'K':
+            out[f.name] = f         # (a marker pseudo-field reads as itself; compared by identity below)
+            continue
+        out[f.name] = _want1(s, v)
+    return out
+
+
+def _want1(s, v):
+    k = s[0]
+    if k == 'R':
+        return [_want1(s[1], x) for x in (v[1] if v else [])]
+    if k == 'P':
+        return {_want1(s[1], a): _want1(s[2], b) for a, b in (v[1] if v else [])}
+    if v is None:
+        return None
+    if k == 'U':
+        return v[1]
+    if k == 'B':
+        return True
+    if k == 'Y':
+        return v[1].decode('utf-8') if s[2] else bytes(v[1])
+    if k == 'N':
+        return [bytes(c) for c in v[1]]
+    return _want_dict(s[4], s[3], v[1])
+
+
+def _extras(cls, fs, vals, inst, wire, names, want_dict=None):
+    """observations next to encode / parse: __eq__ and asdict() after a round trip, a changed copy is unequal,
+    encoding into a caller-supplied buffer at an offset"""
+    ex = {}
+    try:
+        back = cls.parse(wire)
+        ex['eq'] = bool(back == inst) and bool(inst == back)
+        try:
+            d1 = inst.asdict()
+        except Exception:     # noqa
+            # asdict() of a model with an absent bytes / sub-model field raises TypeError / AttributeError (reported,
+            # not judged); an integer outside the Enum / Flag type of its field raises ValueError (not a legal value)
+            d1 = None
+        if d1 is not None:
+            try:
+                ex['asdict'] = bool(_plain(back.asdict()) == _plain(d1))
+                if ex['asdict'] and want_dict is not None and _plain(d1) != want_dict:
+                    ex['asdict'] = 'differs from the values assigned'
+            except Exception as e:     # noqa
+                ex['asdict'] = 'raised ' + _exc(e)
+        # a copy differing in one top-level integer / text / bytes field must compare unequal
+        for f, s, v in zip(cls._encoded_fields if names is None else [getattr(cls, n) for n in names], fs, vals):
+            if s[0] in ('U', 'Y') and v is not None:
+                other = cls.parse(wire)
+                if s[0] == 'U':
+                    nv = v[1] ^ 1
+                    if s[2] is None and (nv.bit_length() + 7) // 8 != (v[1].bit_length() + 7) // 8 and False:
+                        continue
+                else:
+                    nv = (v[1] + b'x') if not s[2] else (v[1].decode('utf-8') + 'x')
+                other.__dict__[f.name] = nv
+                ex['neq'] = bool(other != inst) and not bool(other == inst)
+                break
+    except Exception as e:     # noqa
+        ex['eq'] = 'raised ' + _exc(e)
+    try:
+        off, tail = 3, 5
+        buf = bytearray(b'\xaa' * (off + len(wire) + tail))
+        ret = inst.encode(buf, off)
+        ex['into_buffer'] = bool(bytes(buf[:off]) == b'\xaa' * off and bytes(buf[off:off + len(wire)]) == wire
+                                 and bytes(buf[off + len(wire):]) == b'\xaa' * tail and ret is buf)
+    except Exception as e:     # noqa
+        ex['into_buffer'] = 'raised ' + _exc(e)
+    return ex
+
+
+def _plain(x):
+    if isinstance(x, dict):
+        return {(bytes(k) if isinstance(k, memoryview) else k): _plain(v) for k, v in x.items()}
+    if isinstance(x, (list, tuple)):
+        return [_plain(v) for v in x]
+    if isinstance(x, (memoryview, bytearray)):
+        return bytes(x)
+    return x
+
+
 def run_impl(case):
+    if case['kind'] == 'dflt':
+        return _run_default(case)
     cls, fs, vals = _setup(case)
     out = {'schema_text': T.schemas_text(fs), 'values_text': T.values_text(vals)}
     names = None
     if case['kind'] == 'inh':
-        names = [n for n, _ in _inherit_expected(case['base'], case['derived'])[0]]
+        names = [n for n, _ in _inherit_expected(case['base'], case['derived'], case.get('base2'))[0]]
         actual = [T.strip_classes(x) for x in T.class_schema(cls)]
         out['merged_as_documented'] = (actual == [T.strip_classes(x) for x in fs]
                                        and [f.name for f in cls._encoded_fields] == names)
@@ -328,7 +610,14 @@ def run_impl(case):
         out['ref'] = b''.join(T.ref_encode(s, v) for s, v in zip(fs, vals)).hex()
     except Exception as e:     # noqa
         out['ref'] = 'ref-failed:' + type(e).__name__
-    mw = _mutate(wire, case['mut'])
+    want = None
+    if case['kind'] == 'gen':
+        try:
+            want = _want_dict(cls, fs, _normalise(fs, vals))
+        except Exception:     # noqa
+            want = None
+    out['extras'] = _extras(cls, fs, vals, inst, wire, names, want)
+    mw = _mutate(wire, case['mut'], fs)
     out['mwire'] = mw.hex()
     try:
         back = cls.parse(mw)
@@ -343,9 +632,14 @@ def run_impl(case):
     k = case['mut']['kind']
     norm = T.values_text(_normalise(fs, vals))
     exp = None
+    nt = _nest_target(wire, case['mut'], fs) if k in ('ins_noncrit', 'ins_crit') else None
     if k in ('none', 'ins_noncrit'):
         exp = ['ok', norm]
+    elif k == 'ins_crit' and nt is not None and case['kind'] != 'shipped' and nt[1][2]:
+        exp = ['ok', norm]          # this generated sub-model was declared with ignore_critical=True
     elif k == 'ins_crit':
+        # (no sub-model field of a shipped model class may ignore critical elements: taken from the formats, not
+        # from the flag found in the source)
         exp = ['err', 'DecodeError']
     elif k == 'dup' and els:
         i = case['mut']['r'] % len(els)
@@ -430,6 +724,8 @@ def _lines(case, impl):
 
 
 def model_line(case, impl):       # noqa: F811  (enc question; parse question is appended with a separator)
+    if case['kind'] == 'dflt':
+        return None               # declared defaults are not part of the Lean model: oracle only
     l1, l2 = _lines(case, impl)
     return l1 if l2 is None else l1 + ' ;; ' + l2.split(' ', 1)[1]
 
@@ -456,7 +752,26 @@ def impl_obs(impl):
 
 
 # ------------------------------------------------------------------------------------- oracle
+def _oracle_default(case, impl):
+    if impl['enc'][0] == 'err':
+        return f"encoding a model with default values raised {impl['enc'][1]}"
+    _, wire, announced = impl['enc']
+    if announced * 2 != len(wire):
+        return f'announced length {announced} != encoded size {len(wire) // 2}'
+    if impl['ref'] != wire:
+        return 'a field left unassigned is not encoded with its declared default (or an assigned one not with its value)'
+    if impl.get('read_back') != impl['want_back']:
+        return f"reading the fields of the decoded model: got {str(impl.get('read_back'))[:60]} expected {impl['want_back'][:60]}"
+    if impl.get('read_empty') != impl['want_empty']:
+        return 'a field absent from the wire does not read as its declared default'
+    if impl.get('eq') is not True:
+        return 'decoded model is not == the encoded one'
+    return None
+
+
 def oracle(case, impl):
+    if case['kind'] == 'dflt':
+        return _oracle_default(case, impl)
     if impl.get('merged_as_documented') is False:
         return 'a derived model class does not list its fields in the documented order (own fields, IncludeBase, overrides)'
     if impl['enc'][0] == 'err':
@@ -468,17 +783,31 @@ def oracle(case, impl):
         return 'encoding is not the exact minimal TLV of the fields in declared order (differs from the reference encoder)'
     exp = impl.get('expected_parse')
     if exp is not None and impl['parse'] != exp:
-        k = case['mut']['kind']
+        k = case['mut']['kind'] + ('-nested' if case['mut'].get('nest') else '')
         return f'decode after mutation {k}: expected {exp[0]} {exp[1][:60]} got {impl["parse"][0]} {impl["parse"][1][:60]}'
+    ex = impl.get('extras') or {}
+    if ex.get('eq', True) is not True:
+        return f"the model decoded from the encoding does not compare equal (__eq__) to the encoded one: {ex['eq']}"
+    if ex.get('asdict', True) is not True:
+        return f"asdict() of the decoded model differs from asdict() of the encoded one: {ex['asdict']}"
+    if ex.get('neq', True) is not True:
+        return '__eq__ calls two models equal although a field differs'
+    if ex.get('into_buffer', True) is not True:
+        return f"encode(wire, offset) into a caller-supplied buffer: wrong bytes / wrote outside its range ({ex['into_buffer']})"
     return None
 
 
 def nontrivial(case, impl):
+    if case['kind'] == 'dflt':
+        return impl['enc'][0] == 'ok' and len(case['fields']) >= 2
     return _present([T.unjval(v) for v in case['values']]) >= 2 and impl['enc'][0] == 'ok'
 
 
 def tags(case, impl):
-    t = ['kind:' + case['kind'], 'mut:' + case['mut']['kind'], 'enc:' + impl['enc'][0]]
+    t = ['kind:' + case['kind'] + ('-shape' if case.get('shape') else ''),
+         'mut:' + case['mut']['kind'] + ('-nested' if case['mut'].get('nest') else ''), 'enc:' + impl['enc'][0]]
+    for k, v in (impl.get('extras') or {}).items():
+        t.append(f'{k}:{v}')
     if 'parse' in impl:
         t.append('parse:' + (impl['parse'][0] if impl['parse'][0] == 'ok' else impl['parse'][1]))
     if impl['enc'][0] == 'ok':
